@@ -344,6 +344,15 @@ def mutating_node(uid=None, a=None, b=None, c=None, *va, **vk):
   return r
 
 
+class Linear(RecObj):
+  def __init__(self, x=0, y=None):
+    self._record(locals())
+
+
+def linear(x=0, y=None):
+  return _r.rec('linear', locals())
+
+
 def two(x=None, y=None):
   return _r.rec('two', locals())
 
